@@ -476,6 +476,11 @@ func (p *pool) run(kind string, sc Scenario, tr *hx.Trace) {
 		wraps = p.coqWraps(packed, sc.Style, auth, sender, rcpts, sparty.Rec.Wraps)
 	}
 
+	calls := "None"
+	if perr == nil && !legacy {
+		calls = p.coqCalls(packed, coqStyle(mstyle), sc.Style, rcpts, sparty.Rec.Wraps)
+	}
+
 	kts := "[]"
 
 	if len(sc.RKT) == len(sc.Rcpts) && !legacy {
@@ -492,9 +497,9 @@ func (p *pool) run(kind string, sc Scenario, tr *hx.Trace) {
 		refs = p.coqRefs(sc.Style, auth, sender, rcpts)
 	}
 
-	rec.Coq = fmt.Sprintf("{| c_cfg := mkcfg %s %s %s %s; c_viapk := %s; c_spar := %s; c_payload := %d; c_sender := %d; c_rcpts := %s; c_refs := %s; c_form := %d; c_history := %s; c_kts := %s; c_prim := None; c_wraps := %s; c_att := %s; c_packed := %s; c_unp := %s |}",
+	rec.Coq = fmt.Sprintf("{| c_cfg := mkcfg %s %s %s %s; c_viapk := %s; c_spar := %s; c_payload := %d; c_sender := %d; c_rcpts := %s; c_refs := %s; c_form := %d; c_history := %s; c_kts := %s; c_prim := None; c_wraps := %s; c_calls := %s; c_att := %s; c_packed := %s; c_unp := %s |}",
 		coqPacker(sc.Packer), kt, sc.Enc, coqStyle(mstyle), hx.CoqBool(sc.Via == "packager"), hx.CoqNList(p.partyKeys(sender.Owner)), pid, senderN,
-		hx.CoqNList(rn), refs, map[string]int{"": 0, "quoted": 1, "quoted-pad": 2}[sc.Form], hx.CoqBool(sc.History), kts, wraps, hx.CoqList(coqAtt),
+		hx.CoqNList(rn), refs, map[string]int{"": 0, "quoted": 1, "quoted-pad": 2}[sc.Form], hx.CoqBool(sc.History), kts, wraps, calls, hx.CoqList(coqAtt),
 		hx.CoqBool(perr == nil), hx.CoqList(coqUnp))
 	rec.Observed = obs
 
@@ -625,6 +630,101 @@ func (p *pool) coqWraps(packed []byte, style string, auth bool, sender *env.Key,
 			hx.CoqBool(auth && bytes.Equal(c.APU, skid)), hx.CoqBool(bytes.Equal(c.APV, apvWant[:])),
 			hx.CoqBool(len(c.Tag) > 0 && bytes.Equal(c.Tag, tag)), hx.CoqBool(c.HasSender),
 			hx.CoqBool(bytes.Equal(c.EPKX, calls[0].EPKX))))
+	}
+
+	return "(Some " + hx.CoqList(items) + ")"
+}
+
+// coqCalls names the dataflow of the recorded WrapKey calls of one pack (see C01/Corr.v wcall): which key each
+// argument IS, found by comparing bytes with the world's keys and with the envelope — not by what the scenario asked for.
+func (p *pool) coqCalls(packed []byte, mstyle, refStyle string, rcpts []*env.Key, calls []env.WrapCall) string {
+	raw, err := env.ParseRawJWE(packed)
+	if err != nil {
+		return "None"
+	}
+
+	tag, _ := base64.RawURLEncoding.DecodeString(raw.Tag)
+
+	// the key reference string of a key in this scenario's style (as the packer was given it)
+	var kids []string
+
+	var rn []int
+
+	for _, r := range rcpts {
+		kids = append(kids, r.Ref(refStyle))
+		rn = append(rn, r.Name)
+	}
+
+	sort.Strings(kids)
+	apvWant := sha256.Sum256([]byte(strings.Join(kids, ".")))
+
+	algs := map[string]string{"ECDH-ES+A256KW": "ES_A256KW", "ECDH-ES+XC20PKW": "ES_XC20PKW", "ECDH-1PU+A128KW": "PU_A128KW",
+		"ECDH-1PU+A192KW": "PU_A192KW", "ECDH-1PU+A256KW": "PU_A256KW", "ECDH-1PU+XC20PKW": "PU_XC20PKW"}
+
+	index := func(tab *[][]byte, v []byte) int {
+		for i, x := range *tab {
+			if bytes.Equal(x, v) {
+				return i
+			}
+		}
+
+		*tab = append(*tab, v)
+
+		return len(*tab) - 1
+	}
+
+	var epks, ceks [][]byte
+
+	var items []string
+
+	for _, c := range calls {
+		if !c.OK {
+			items = append(items, "mkwcall (AlgOther 1) 0 None 0 0 NOther NOther None")
+			continue
+		}
+
+		alg, ok := algs[c.Alg]
+		if !ok {
+			alg = "(AlgOther 0)"
+		}
+
+		rk := 999999
+		if k := p.w.KeyByX(c.RcptX); k != nil && string(k.Pub.Y) == string(c.RcptY) {
+			rk = k.Name
+		}
+
+		snd := "None"
+		if c.HasSender {
+			snd = "(Some 999999)"
+			if k := p.w.KeyByX(c.SenderX); k != nil {
+				snd = fmt.Sprintf("(Some %d)", k.Name)
+			}
+		}
+
+		named := func(v []byte) string {
+			switch {
+			case len(v) == 0:
+				return "NEmpty"
+			case bytes.Equal(v, []byte(base64.RawURLEncoding.EncodeToString(c.EPKX))):
+				return "NEpk"
+			case bytes.Equal(v, apvWant[:]):
+				return fmt.Sprintf("(NKids (map (kref_for %s) %s))", mstyle, hx.CoqNList(rn))
+			}
+
+			if k := p.w.ByRef(string(v)); k != nil && string(v) == k.Ref(refStyle) {
+				return fmt.Sprintf("(NSkid (kref_for %s %d))", mstyle, k.Name)
+			}
+
+			return "NOther"
+		}
+
+		tg := "None"
+		if len(c.Tag) > 0 {
+			tg = "(Some " + hx.CoqBool(bytes.Equal(c.Tag, tag)) + ")"
+		}
+
+		items = append(items, fmt.Sprintf("mkwcall %s %d %s %d %d %s %s %s", alg, rk, snd, index(&epks, c.EPKX), index(&ceks, c.CEK),
+			named(c.OutAPU), named(c.OutAPV), tg))
 	}
 
 	return "(Some " + hx.CoqList(items) + ")"
